@@ -35,6 +35,106 @@ fn fixed_regressions(out: &mut Out) {
 	out.op("oracle-rt", &[mixed.clone()]);
 	out.op("oracle-placement", &[mixed.clone()]);
 	out.op("enigma-write-all", &[mixed]);
+	// depth-first nesting: a top-level class with two nested classes, the first of which has a nested class of its own
+	// (a breadth-first writer would put C$A$X below C$B)
+	let deep = ms(vec![cls("C$B", Some("D$F")), cls("C$A$X", Some("D$E$Y")), cls("C", Some("D")), cls("C$A", Some("D$E")), cls("C$A$X$Z", None), cls("C$B$W", None)]);
+	out.op("oracle-rt", &[deep.clone()]);
+	out.op("oracle-placement", &[deep.clone()]);
+	out.op("oracle-dir-rt", &[deep.clone()]);
+	out.op("enigma-write-all", &[deep.clone()]);
+	out.op("enigma-rt", &[deep]);
+	// comment edge cases at all four levels: empty comment, last line blank, only blank lines, leading space, `#`
+	for docs in [["", "", "", ""], ["x\n", "f\n", "m\n", "p\n"], ["\n", "\n\n", "a\n\nb\n", " \n "], ["# c", " lead", "x  y ", "\u{a0}z\u{85}"]] {
+		let g = doc_sample(docs);
+		out.op("oracle-rt", &[g.clone()]);
+		out.op("oracle-dir-rt", &[g.clone()]);
+		out.op("enigma-write-all", &[g.clone()]);
+		out.op("enigma-rt", &[g]);
+	}
+	// the `*_witness` theorems of Thm/C12.lean, replayed: implementation and model must lose the same thing
+	out.op("enigma-rt", &[ms(vec![cls("A", Some("X")), cls("A$B", Some("Y"))])]);   // nested_target_witness
+	out.op("enigma-rt", &[ms(vec![cls("A", Some("ACC:X"))])]);                        // modifier_target_witness
+	out.op("enigma-rt", &[ms(vec![cls("A", Some("X")), cls("B", Some("X"))])]);       // file_collision_witness
+	out.op("enigma-rt", &[ms(vec![cls("A", Some("X#Y"))])]);                          // hash_in_name_witness
+	out.op("enigma-rt", &[ms(vec![cls("A", Some("X Y"))])]);                          // space_in_name_witness
+	{
+		let mk = |doc: Option<&str>, mdst: Option<&str>, pnames: Vec<Option<String>>| GMappings {
+			ns: vec!["official".into(), "named".into()], doc: None,
+			classes: vec![fvh::mapgen::GClass { names: vec![Some("A".into()), None], doc: doc.map(|d| d.to_owned()), fields: vec![],
+				methods: vec![fvh::mapgen::GMember { desc: "()V".into(), names: vec![Some("m".into()), mdst.map(|d| d.to_owned())], doc: None,
+					params: vec![fvh::mapgen::GParam { index: 0, names: pnames, doc: None }] }] }],
+		}.to_sexp();
+		out.op("enigma-rt", &[mk(Some("a\tb"), None, vec![None, Some("p".into())])]);                                 // comment_tab_witness
+		out.op("enigma-rt", &[mk(Some("a\r\nb\rc"), None, vec![None, Some("p".into())])]);                           // comment_cr_witness
+		out.op("enigma-rt", &[mk(None, Some("<init>"), vec![Some("s".into()), Some("p".into())])]);                    // init_and_param_source_witness
+		out.op("enigma-write-all", &[mk(None, None, vec![None, None])]);                                               // param_without_target_witness
+		out.op("oracle-rt", &[mk(Some("x\n"), None, vec![None, Some("p".into())])]);                                   // comment_blank_roundtrip
+	}
+	// not expressible: a CR inside or at the end of a comment line (must be out of the domain on both sides)
+	for docs in [["a\r", "x", "x", "x"], ["x", "a\r\nb", "x", "x"], ["x", "x", "a\rb", "x"], ["x", "x", "x", "\r"]] {
+		let g = doc_sample(docs);
+		out.op("oracle-rt", &[g.clone()]);
+		out.op("enigma-rt", &[g]);
+	}
+}
+
+/// one class with one field and one method with one parameter, javadocs at class / field / method / parameter level
+fn doc_sample(docs: [&str; 4]) -> Sexp {
+	let g = GMappings {
+		ns: vec!["official".into(), "named".into()],
+		doc: None,
+		classes: vec![fvh::mapgen::GClass {
+			names: vec![Some("p/A".into()), Some("q/B".into())],
+			doc: Some(docs[0].into()),
+			fields: vec![fvh::mapgen::GMember { desc: "I".into(), names: vec![Some("f".into()), Some("g".into())], doc: Some(docs[1].into()), params: vec![] }],
+			methods: vec![fvh::mapgen::GMember { desc: "(I)V".into(), names: vec![Some("m".into()), None], doc: Some(docs[2].into()),
+				params: vec![fvh::mapgen::GParam { index: 1, names: vec![None, Some("p".into())], doc: Some(docs[3].into()) }] }],
+		}],
+	};
+	g.to_sexp()
+}
+
+/// source names of a family (shuffled): root, 2..4 nested classes, below a non-last one (in source-name order) 1..2 classes
+/// of its own, further levels at random, sometimes an orphan chain
+fn family_keys(r: &mut Rng, cfg: &MapCfg) -> Vec<String> {
+	let root = format!("{}{}", r.pick(&["", "p/", "a/b/"]), fvh::mapgen::ident(r, cfg));
+	let mut kids: Vec<String> = Vec::new();
+	let n = r.range(2, 4);
+	while kids.len() < n { let k = fvh::mapgen::ident(r, cfg); if !kids.contains(&k) { kids.push(k); } }
+	kids.sort();
+	let forced = r.below(n - 1);
+	let mut keys = vec![root.clone()];
+	for (i, k) in kids.iter().enumerate() {
+		let ck = format!("{root}${k}");
+		keys.push(ck.clone());
+		if i == forced || r.chance(1, 3) {
+			let mut gk: Vec<String> = Vec::new();
+			let gn = r.range(1, 2);
+			while gk.len() < gn { let x = fvh::mapgen::ident(r, cfg); if !gk.contains(&x) { gk.push(x); } }
+			for x in gk {
+				let gkey = format!("{ck}${x}");
+				keys.push(gkey.clone());
+				if r.chance(1, 3) { keys.push(format!("{gkey}${}", fvh::mapgen::ident(r, cfg))); }
+			}
+		}
+	}
+	if r.chance(1, 3) { keys.push(format!("Zz${}${}", fvh::mapgen::ident(r, cfg), fvh::mapgen::ident(r, cfg))); }
+	r.shuffle(&mut keys);
+	keys
+}
+
+const DOC_EDGES: &[&str] = &["", "\n", "x\n", "\n\n", "a\n\nb\n", " \n ", "#\n", "x \n", " ", "a\n b\n#c\n", "\u{85}x\u{a0}\n", "a\r", "a\r\nb"];
+
+/// put comment edge cases (empty, last line blank, blank lines only, CR …) on random entries of every level
+fn doc_edges(r: &mut Rng, g: &mut GMappings) {
+	for c in &mut g.classes {
+		if r.chance(1, 2) { c.doc = Some((*r.pick(DOC_EDGES)).to_owned()); }
+		for f in &mut c.fields { if r.chance(1, 2) { f.doc = Some((*r.pick(DOC_EDGES)).to_owned()); } }
+		for m in &mut c.methods {
+			if r.chance(1, 2) { m.doc = Some((*r.pick(DOC_EDGES)).to_owned()); }
+			for p in &mut m.params { if r.chance(1, 2) { p.doc = Some((*r.pick(DOC_EDGES)).to_owned()); } }
+		}
+	}
 }
 
 fn parent_of(key: &str) -> Option<(&str, &str)> {
@@ -198,6 +298,7 @@ fn gen(r: &mut Rng, tier: Tier, out: &mut Out) {
 		let mut g = gen_mappings(r, &cfg);
 		let mut kind = "repaired";
 		if r.chance(5, 6) { repair(r, &mut g, &cfg); } else { kind = "raw"; }
+		if r.chance(1, 4) { doc_edges(r, &mut g); out.stats.hit("doc-edges:yes"); } else { out.stats.hit("doc-edges:no"); }
 		if r.chance(1, 5) { kind = perturb(r, &mut g); }
 		out.stats.hit(&format!("set:{kind}"));
 		out.stats.hit(&format!("classes:{}", g.classes.len()));
@@ -206,6 +307,11 @@ fn gen(r: &mut Rng, tier: Tier, out: &mut Out) {
 		let keys: Vec<String> = g.classes.iter().map(|c| c.key()).collect();
 		let orphans = keys.iter().filter(|k| parent_of(k).is_some_and(|(p, _)| !keys.iter().any(|x| x == p))).count();
 		out.stats.hit(if orphans > 0 { "orphans:yes" } else { "orphans:no" });
+		// a class with >= 2 nested classes where a non-last one (in source-name order) has a nested class of its own:
+		// the shape on which depth-first and breadth-first writers differ
+		let kids = |k: &str| { let mut v: Vec<&String> = keys.iter().filter(|x| parent_of(x).is_some_and(|(p, _)| p == k)).collect(); v.sort(); v };
+		let dfs_sensitive = keys.iter().any(|k| { let ch = kids(k); ch.len() >= 2 && ch[..ch.len() - 1].iter().any(|c| !kids(c).is_empty()) });
+		out.stats.hit(if dfs_sensitive { "dfs-sensitive-shape:yes" } else { "dfs-sensitive-shape:no" });
 		let m = g.to_sexp();
 		out.op("oracle-rt", &[m.clone()]);
 		match i % 4 {
@@ -227,6 +333,39 @@ fn gen(r: &mut Rng, tier: Tier, out: &mut Out) {
 		// real directory: a sample in the quick tier
 		if thorough || i % 4 == 0 {
 			match i % 3 { 0 => out.op("enigma-files", &[m.clone()]), 1 => out.op("enigma-dir-rt", &[m.clone()]), _ => out.op("oracle-dir-rt", &[m.clone()]) }
+		}
+	}
+	// nested families: a class with >= 2 nested classes, a non-last one of which has nested classes of its own (the shape on
+	// which a depth-first and a breadth-first writer differ), sometimes next to an orphan chain
+	let families = if thorough { 1200 } else { 60 };
+	for i in 0..families {
+		let mut cfg = MapCfg::basic(2);
+		cfg.nest_depth = 0;
+		cfg.max_classes = 9;
+		cfg.max_members = r.range(0, 2);
+		cfg.max_params = r.range(0, 2);
+		cfg.extended_targets = true;
+		cfg.absent_pct = *r.pick(&[0, 30]);
+		cfg.doc_pct = *r.pick(&[0, 40]);
+		cfg.param_src_names = false;
+		let mut g = gen_mappings(r, &cfg);
+		let keys = family_keys(r, &cfg);
+		while g.classes.len() < keys.len() {
+			g.classes.push(fvh::mapgen::GClass { names: vec![None, if r.chance(2, 3) { Some(fvh::mapgen::ident(r, &cfg)) } else { None }], doc: None, fields: vec![], methods: vec![] });
+		}
+		g.classes.truncate(keys.len());
+		for (c, k) in g.classes.iter_mut().zip(keys.iter()) { c.names[0] = Some(k.clone()); }
+		repair(r, &mut g, &cfg);
+		if r.chance(1, 4) { doc_edges(r, &mut g); }
+		out.stats.hit("set:family");
+		let m = g.to_sexp();
+		out.op("oracle-rt", &[m.clone()]);
+		out.op("oracle-placement", &[m.clone()]);
+		match i % 4 {
+			0 => out.op("enigma-write-all", &[m.clone()]),
+			1 => out.op("enigma-rt", &[m.clone()]),
+			2 => out.op("oracle-dir-rt", &[m.clone()]),
+			_ => { let h = shuffled(r, &g); out.op("oracle-perm", &[m.clone(), h.to_sexp()]); }
 		}
 	}
 	// malformed / edge text stream
@@ -452,7 +591,8 @@ fn exec(op: &str, args: &[Sexp]) -> Ans {
 		("oracle-perm", [a, b]) => {
 			let a: M2 = tr!(from_sexp(a));
 			let b: M2 = tr!(from_sexp(b));
-			if !(distinct(&root_file_names(&a)) && sort_all(&a) == sort_all(&b)) { return Ans::out_of_domain(); }
+			// the hypotheses of `write_order_independent`: both sets Enigma-expressible, same entries under the same keys at every level
+			if !(writable(&a) && writable(&b) && sort_all(&a) == sort_all(&b)) { return Ans::out_of_domain(); }
 			if write_all_text(&a) != write_all_text(&b) { return Ans::fail("differs"); }
 			// the directory form too, when it can be written
 			match (dir_files(&a), dir_files(&b)) {
@@ -482,7 +622,8 @@ fn exec(op: &str, args: &[Sexp]) -> Ans {
 					if to_sexp(&by_key(&r)) == to_sexp(&canon(&m)) && r.javadoc.is_none() { Ans::pass() } else { Ans::fail("differs") }
 				}
 				"oracle-dir-rt" => {
-					if !writable(&m) || m.classes.iter().any(|(k, c)| file_name_of(k, c).contains('.')) { return Ans::out_of_domain(); }
+					// `enigma_dir::write` succeeds on the whole domain (theorem `dir_paths`): a failure is a failure of the property
+					if !writable(&m) { return Ans::out_of_domain(); }
 					let Ok(r) = dir_rt(&m) else { return Ans::fail("io_err") };
 					let mut c = canon(&m);
 					c.javadoc = None;
@@ -490,7 +631,7 @@ fn exec(op: &str, args: &[Sexp]) -> Ans {
 				}
 				"oracle-placement" => {
 					if !writable(&m) { return Ans::out_of_domain(); }
-					let Ok(fs) = dir_files(&m) else { return Ans::out_of_domain() };
+					let Ok(fs) = dir_files(&m) else { return Ans::fail("io_err") };
 					let per: Vec<Vec<(usize, String)>> = fs.iter().map(|(_, t)| class_lines(t)).collect();
 					if per.iter().any(|f| f.first().map_or(true, |x| x.0 != 0) || f[1..].iter().any(|x| x.0 == 0)) { return Ans::fail("file_shape"); }
 					let all: Vec<&(usize, String)> = per.iter().flatten().collect();
